@@ -83,7 +83,7 @@ m = {
  "engines": [{"name": "sa", "path": "/verif/sa", "serves_properties": [c["property_id"] for c in checks],
               "kind_free_text": "repository-specific static analyser: resolved source model, provenance terms, decision tables, loop schemas, effect and escape analysis, regex automata, abstract import machine (stdlib only, never imports /repo)"}],
  "checks": checks,
- "notes": "All checks are static: they parse /repo/chartparse/*.py on every run and never import or execute it. Exit 0 held, 1 VIOLATION, 2 ANALYSIS-ERROR. Three genuine defects were repaired in /repo with 'fix:' commits (see known_findings.json). selftest/ holds development tools (seeded-change runner, engine validators) that are not MANIFEST commands.",
+ "notes": "All checks are static: they parse /repo/chartparse/*.py on every run and never import or execute it. Exit 0 held, 1 VIOLATION, 2 ANALYSIS-ERROR. Four genuine defects were repaired in /repo with 'fix:' commits acfb35c, d418283, 5e46fa8, 2dcbb94 (see known_findings.json, DESIGN.md A.1). selftest/ holds development tools (seeded-change runner, engine validators) that are not MANIFEST commands.",
  "not_applicable": na,
 }
 json.dump(m, open("/verif/MANIFEST.json", "w"), indent=1)
